@@ -21,6 +21,9 @@ GENFILE = (" Further tie (regenerated on every run): translate/file2coq.py trans
            "the model's step from every reachable state, GenFileC.v that the translated parser of a file TEXT equals the model's for every text and restates the file-level "
            "theorems for it; GenDbP.v / GenDbC.v: the translated get_random is the model's lookup for every pick, the translated load refines the atomic load specification "
            "(HTTPSignature.parse is bound to the model's here and proved equal to its own translation by the http2coq tie).")
+GENH11 = (" Further tie (regenerated on every run): translate/h112coq.py translates h11's ReceiveBuffer (__init__, __iadd__, _extract, maybe_extract_lines) AS INSTALLED and pyp0f's copy_buffer; "
+          "coq/Gen/GenH11P.v proves the translation equal to the model's extract_lines for EVERY byte string (the assert in the library is unreachable, the copy is consumed by exactly the head, a refusal keeps the data) "
+          "and composes it with the translated read_payload (C07_translated_read_payload_h11); what stays assumed is the meaning of the one regular expression b'\\n\\r?\\n'.")
 GENEFF = (" Further tie (regenerated on every run): translate/eff2coq.py derives from ALL modules of /repo's CURRENT source which caller-owned and module-level objects each public call may "
           "write (fail-closed may-write analysis); coq/Gen/GenEffP.v proves from the emitted data that the fingerprint calls write nothing, that no call writes a module-level object other than the "
           "random generator, that Database.load writes only its own object and the database readers nothing (section 16g of DESIGN.md).")
@@ -74,7 +77,7 @@ CLAIMED = {
              tech="Coq proof (codec inversion, TLV walker soundness+completeness) + extracted-model differential correspondence on raw bytes", ref="DESIGN.md section 4 C03"),
  "C04": dict(text="Coq theorems: the option walker terminates within one iteration per byte for EVERY byte string and its layout never exceeds the number "
                   "of option bytes; the dissector model yields a packet or PacketError; the tcp/mtu/uptime fingerprint models yield a result, PacketError or "
-                  "DatabaseError only; the HTTP reader returns a result or PacketError for EVERY byte string (no Crash constructor reachable). " + TIE + GEN + GENHTTPX +
+                  "DatabaseError only; the HTTP reader returns a result or PacketError for EVERY byte string (no Crash constructor reachable). " + TIE + GEN + GENHTTPX + GENH11 +
                   " The implementation is run under a per-call alarm and address-space limit on mutated packets/payloads (hostile options, inconsistent "
                   "lengths, truncations, leading CR/LF, non-ASCII) and must answer ok or PacketError.",
              note="Trusted: as C01; byte strings Scapy itself refuses to dissect are outside the quantifier (counted as dissect-failed); work/memory "
@@ -88,8 +91,9 @@ CLAIMED = {
  "C07": dict(text="Coq theorems: for every head written as lines with CRLF or bare LF per line followed by a blank line and arbitrary body bytes the lines are "
                   "recovered; request/status line -> direction and minor digit; header fields (names as sent, values stripped, any number of folded "
                   "continuation lines appended) are recovered in order; whole-message round trip; rejections: unterminated head, other method, other "
-                  "version (exact characterisation of accepted version tokens), no colon, empty name. " + TIE + GENHTTPX,
-             note="Trusted: as C01; h11's maybe_extract_lines is modelled (not verified) as 'lines before the first LF-terminated blank piece', exercised "
+                  "version (exact characterisation of accepted version tokens), no colon, empty name. " + TIE + GENHTTPX + GENH11,
+             note="Trusted: as C01; h11's maybe_extract_lines: the hand model ('lines before the first LF-terminated blank piece') is proved equal to a translation of the INSTALLED "
+                  "library source (translate/h112coq.py, Gen/GenH11P.v) - assumed: the translator's reading and the meaning of the regular expression b'\\n\\r?\\n' - and exercised "
                   "by the correspondence on every run. No axioms.",
              tech="Coq proof (render/read round trip, rejection lemmas) + extracted-model differential correspondence incl. single-defect corruptions", ref="DESIGN.md section 4 C07"),
  "C09": dict(text="Coq theorems: after a successful load each section holds, in file order, exactly the sig lines a state-free scanner attributes to it "
@@ -184,7 +188,7 @@ def main():
                            "level_claimed": {"category": "proof", "text": c["text"], "design_ref": c["ref"]},
                            "level_note": c["note"], "technique": c["tech"]})
     m = {"version": 1,
-         "setup_cmd": "cd coq && coq_makefile -f _CoqProject -o Makefile && timeout 3000 make -j16 && cd ../ocaml && make && cd .. && /venv/bin/python -c \"from harness import core; print(core.gen_tie()['ok'], core.gen_tie_imp()['ok'], core.gen_tie_sig()['ok'], core.gen_tie_file()['ok'], core.gen_tie_httpx()['ok'], core.gen_tie_eff()['ok'])\"",
+         "setup_cmd": "cd coq && coq_makefile -f _CoqProject -o Makefile && timeout 3000 make -j16 && cd ../ocaml && make && cd .. && /venv/bin/python -c \"from harness import core; print(core.gen_tie()['ok'], core.gen_tie_imp()['ok'], core.gen_tie_sig()['ok'], core.gen_tie_file()['ok'], core.gen_tie_httpx()['ok'], core.gen_tie_eff()['ok'], core.gen_tie_h11()['ok'])\"",
          "hooks": {"guard": "PYP0F_VERIF",
                    "enable": "no source hooks: harness/worker.py replaces time.time_ns / random.* / builtins.open before importing pyp0f; PYTHONPATH=/repo",
                    "baseline_off_cmd": "cd /repo && /venv/bin/python -m pytest -q -p no:cacheprovider --timeout=900",
